@@ -21,7 +21,7 @@ PROPS = {
         "verus": ["c09_staging", "c09_pins", "c10_writebehind", "c10_coalesce", "c16_policy"],
         "kani": [],
         "native": [
-            {"name": "cached_maps_read_your_writes", "bin": "replay_c09", "crate": "replay", "tiers": ("quick", "thorough"),
+            {"name": "cached_maps_read_your_writes", "bin": "replay_c09", "crate": "replay", "thorough_seeds": 96, "tiers": ("quick", "thorough"),
              "bound": "directed staging histories (W1, W2) + 26 seeded random histories of get/insert/remove over the three cached maps with batches submitted at random points, cache capacities 1/2/4/64, sets across the 1024 spill threshold; every read compared with a reference map (real code, native execution, background writer not controlled)"},
         ],
         "witness": witness.c09,
@@ -42,7 +42,7 @@ PROPS = {
              "bound": "none: full-domain symbolic inputs, loop bounded by the byte width"},
         ],
         "native": [
-            {"name": "history_free_and_discriminating", "bin": "replay_c13", "crate": "replay", "twice": True, "tiers": ("quick", "thorough"),
+            {"name": "history_free_and_discriminating", "bin": "replay_c13", "crate": "replay", "twice": True, "thorough_seeds": 128, "tiers": ("quick", "thorough"),
              "bound": "200 seeded rounds of unordered collections built by different insertion orders / capacities / hasher states, ownership variants, serialization round trips; pairwise distinctness on fixed universes of framing-trap values; identical digest in two separate processes (seeded SipHash-128)"},
             {"name": "range_inclusive_exhausted_flag", "bin": "replay_c13", "crate": "replay", "tiers": ("quick", "thorough"), "args": ["--only", "range_inclusive_exhausted"], "thorough_seeds": 1,
              "bound": "2 directed pairs: a fresh RangeInclusive<u32|i64> vs the same range iterated to exhaustion (unequal values) must hash differently (known finding F5)"},
@@ -133,7 +133,7 @@ PROPS = {
         "verus": ["c10_writebehind", "c10_coalesce", "c11_rocksdb", "c11_fjall"],
         "kani": [],
         "native": [
-            {"name": "store_equals_batches_in_creation_order", "bin": "replay_c10", "crate": "replay", "tiers": ("quick", "thorough"),
+            {"name": "store_equals_batches_in_creation_order", "bin": "replay_c10", "crate": "replay", "thorough_seeds": 64, "tiers": ("quick", "thorough"),
              "bound": "24 directed late-first histories + 4 directed drop-during-panic-unwinding histories + 400 seeded random histories: 1..9 batches of 0..5 operations (wide-column put/delete and key-of-set insert/remove over 1..3 keys x 1..3 elements, so that one batch often stages several operations on one slot), submitted out of creation order from 1..3 threads, 1..4 serializer workers, random serialization delays and physical grouping; after drop the recording store must equal applying the batches in creation order, each exactly once (real code, native execution, thread schedule not controlled)"},
             {"name": "real_backends_behind_the_real_write_manager", "bin": "replay_c10_db", "crate": "replay_db", "release": False, "tiers": ("quick", "thorough"), "thorough_seeds": 6,
              "bound": "the real WriteBehind in front of the REAL RocksDB and Fjall: 11 manager lifetimes per store and seed (mixed traffic, lifetimes that ONLY remove, put-then-remove of a never-stored key across batches of one lifetime, a unit-keyed unit-discriminant column whose encoded key is empty), 1..3 serializer workers; after every lifetime the store is closed, reopened and read through a fresh engine: it must hold exactly the batches applied in creation order"},
